@@ -243,6 +243,9 @@ func Run(c *core.Ctx) core.FinishOpts {
 		if only != "" && tc.id != only {
 			return
 		}
+		if selftest && i%97 != 5 {
+			return // self-test: only the cases whose recording is corrupted are run
+		}
 		o := tc.opts
 		if selftest && i%97 == 5 {
 			// a wrong recording: one printed row too many / too few
